@@ -32,7 +32,7 @@ Inductive ev :=
 | ERestart
 | EAdd (ip : bytes) (until : option N).                              (* BanMgr.Add directly *)
 Inductive out :=
-| OAdmitted | ORefused (perm : bool)
+| OLetIn | ORefused (perm : bool)
 | OKicked (told : list N) | OKickDenied | ONoTarget
 | ONone.
 
@@ -44,7 +44,7 @@ Definition step (w : world) (e : ev) : world * out :=
   match e with
   | EConnect tok ip prot now =>
       match verdict (w_bans w) ip now with
-      | Admit => (mk_world (w_conns w ++ [mk_conn tok ip prot]) (w_bans w), OAdmitted)
+      | Admit => (mk_world (w_conns w ++ [mk_conn tok ip prot]) (w_bans w), OLetIn)
       | RefusePerm => (w, ORefused true)
       | RefuseTemp => (w, ORefused false)
       end
